@@ -119,9 +119,9 @@ def run(ctx: Ctx):
         end_t, warm_t = ctx.rng.choice([(4, 2), (6, 0), (5, 5)])
         wide = i % 3 == 2       # many pending events + frequent cancellations (interior removals from a deep heap)
         if wide:
-            end_t, warm_t = 12, 3
+            end_t, warm_t = 30, 3          # (initial events spread over 0..31: the shape of the heap matters)
         ctl = dc.random_run(ctx, ctx.rng, conc, end_t, warm_t, "pause", cmds=["Start"], ncmds=1,
-                            maxev=ctx.rng.choice([16, 24]) if wide else ctx.rng.choice([6, 12, 20]), wide=wide, p_endrep=0.15 if i % 5 == 0 else 0.0,
+                            maxev=ctx.rng.choice([24, 32]) if wide else ctx.rng.choice([6, 12, 20]), wide=wide, p_endrep=0.15 if i % 5 == 0 else 0.0,
                             p_cancel=0.0 if i % 6 == 5 else None)     # (every other wide program grows its heap by insertions only: no re-heapify in between)
         ctx.evaluations += 1
         if ctl.errors:
